@@ -173,7 +173,12 @@ template <class OffsetType, class ExtentType, class StrideType>
 MDSPAN_INLINE_FUNCTION
 constexpr auto
 stride_of(const strided_slice<OffsetType, ExtentType, StrideType> &r) {
-  return r.stride;
+  // a stride that is not smaller than the extent selects at most one element:
+  // the sub-stride is then irrelevant and must not be multiplied (overflow)
+  using common_t = std::common_type_t<decltype(r.stride + 0), decltype(r.extent + 0)>;
+  return static_cast<common_t>(r.stride) < static_cast<common_t>(r.extent)
+             ? static_cast<common_t>(r.stride)
+             : common_t(1);
 }
 
 // divide which can deal with integral constant preservation
